@@ -99,52 +99,84 @@ theorem output_conflict_rejected (env : Env) (cfg : Cfg)
 /-- the value one `_update_dict` layer gives an option (`none`: the layer does not set it) -/
 def layer (d : Dict) (k : Str) : Option PyVal := dlast (effective d) k
 
-/-- PRECEDENCE.  After the loading steps of `load_all` (before implication) every name `k` has the value of the
-command line, else of the environment, else of the file that was read, else the value it had after the
-`conf`-only first pass over the command line (see `conf_only_pass`: that is the constructed value). -/
+/-- PRECEDENCE (raw form).  After the loading steps of `load_all` (before implication) every name `k` has the value
+of the command line, else of the environment, else of the file that was read, else the value it had after the
+`conf`-only first pass over the command line. -/
 theorem precedence (inp : Input) (s0 cli s : Dict) (h : preImply inp s0 cli = .ok s) (k : Str) :
-    ∃ fd ed, fileDict (fileAt inp.files (dget (afterConfOnly s0 cli) kConf)) = .dict fd ∧
-      envDict inp.envVars = some ed ∧
-      dget s k = (layer cli k).orElse (fun _ => (layer ed k).orElse (fun _ => (layer fd k).orElse
+    ∃ ed, envDict inp.envVars = some ed ∧
+      dget s k = (layer cli k).orElse (fun _ => (layer ed k).orElse (fun _ =>
+        (layer (fileDict (fileAt inp.files (dget (afterConfOnly s0 cli) kConf))) k).orElse
         (fun _ => dget (afterConfOnly s0 cli) k))) := by
   unfold preImply at h
   simp only [] at h
   split at h
   · cases h
-  · rename_i fd hfd
-    split at h
-    · cases h
-    · rename_i ed hed
-      injection h with h
-      refine ⟨fd, ed, hfd, hed, ?_⟩
-      rw [← h]
-      simp only [dget_updateDict, layer]
+  · rename_i ed hed
+    injection h with h
+    refine ⟨ed, hed, ?_⟩
+    rw [← h]
+    simp only [dget_updateDict, layer]
 
-/-- the first, `conf_only=True`, pass over the command line: when the command line has no `--conf` it applies the
-whole command line (which the last pass repeats), so the base value is the constructed one or the command
-line's own -/
+/-- the first, `conf_only=True`, pass over the command line when it has no `--conf`: it applies the whole command
+line (which the last pass repeats) -/
 theorem conf_only_pass (s0 cli : Dict) (k : Str) (h : dlast cli kConf = none) :
     dget (afterConfOnly s0 cli) k = (layer cli k).orElse (fun _ => dget s0 k) := by
   unfold afterConfOnly
   rw [h]
   simp only [dget_updateDict, layer]
 
-/-- hence: full precedence `cli > env > file > constructed value (default or keyword argument)` whenever
-`--conf` is not on the command line -/
-theorem precedence_full (inp : Input) (s0 cli s : Dict) (h : preImply inp s0 cli = .ok s)
-    (hc : dlast cli kConf = none) (k : Str) :
-    ∃ fd ed, fileDict (fileAt inp.files (dget s0 kConf |>.orElse fun _ => none) |> fun _ =>
-        fileAt inp.files (dget (afterConfOnly s0 cli) kConf)) = .dict fd ∧
-      envDict inp.envVars = some ed ∧
-      dget s k = (layer cli k).orElse (fun _ => (layer ed k).orElse (fun _ => (layer fd k).orElse
-        (fun _ => dget s0 k))) := by
-  obtain ⟨fd, ed, hfd, hed, hk⟩ := precedence inp s0 cli s h k
-  refine ⟨fd, ed, hfd, hed, ?_⟩
-  rw [hk, conf_only_pass s0 cli k hc]
-  cases layer cli k <;> simp
+/-- … and when it has `--conf P`: the pass writes only `conf`, and that value is the command line's own, so below
+the command-line layer the base value is the constructed one -/
+theorem conf_only_pass_conf (s0 cli : Dict) (v : PyVal) (k : Str) (h : dlast cli kConf = some v) :
+    (layer cli k).orElse (fun _ => dget (afterConfOnly s0 cli) k) =
+    (layer cli k).orElse (fun _ => dget s0 k) := by
+  unfold afterConfOnly
+  rw [h]
+  simp only [dget_updateDict]
+  by_cases hk : k = kConf
+  · rw [hk]
+    have hng : ¬ (kConf = kNoGpg) := by decide
+    by_cases hp : kConf ∈ protectedNames
+    · have : effective [(kConf, v)] = [] := by unfold effective; simp [List.filter, hp, dget]
+      rw [this]; simp [dlast]
+    · by_cases ho : kConf ∈ optNames
+      · have : layer cli kConf = some v := effective_has_conf cli v h hp ho
+        rw [this]; simp
+      · have : effective [(kConf, v)] = [] := by unfold effective; simp [List.filter, hp, ho, dget, hng]
+        rw [this]; simp [dlast]
+  · rw [effective_conf v k hk]; simp
 
-/- not proved here (time): with `--conf P` on the command line the first pass writes only `conf`, so `precedence`'s
-base value is the constructed one for every `k ≠ conf`; the correspondence stream covers `--conf` cases. -/
+/-- PRECEDENCE, full: `command line > environment > file > constructed value (default or keyword argument)` for
+every name, every command line (with or without `--conf`), every environment, every file -/
+theorem precedence_full (inp : Input) (s0 cli s : Dict) (h : preImply inp s0 cli = .ok s) (k : Str) :
+    ∃ ed, envDict inp.envVars = some ed ∧
+      dget s k = (layer cli k).orElse (fun _ => (layer ed k).orElse (fun _ =>
+        (layer (fileDict (fileAt inp.files (dget (afterConfOnly s0 cli) kConf))) k).orElse
+        (fun _ => dget s0 k))) := by
+  obtain ⟨ed, hed, hk⟩ := precedence inp s0 cli s h k
+  refine ⟨ed, hed, ?_⟩
+  rw [hk]
+  cases hc : dlast cli kConf with
+  | none =>
+    rw [conf_only_pass s0 cli k hc]
+    cases layer cli k <;> simp
+  | some v =>
+    have := conf_only_pass_conf s0 cli v k hc
+    cases hl : layer cli k with
+    | some w => simp
+    | none => rw [hl] at this; simp at this; simp [this]
+
+/-- which file is read: the one named by `--conf` when the command line has it, else by the constructed `conf` -/
+theorem conf_file_choice (s0 cli : Dict) (v : PyVal) (h : dlast cli kConf = some v)
+    (hp : kConf ∉ protectedNames) (ho : kConf ∈ optNames) :
+    dget (afterConfOnly s0 cli) kConf = some v := by
+  unfold afterConfOnly
+  rw [h]
+  simp only [dget_updateDict]
+  have : effective [(kConf, v)] = [(kConf, v)] := by
+    have hng : ¬ (kConf = kNoGpg) := by decide
+    unfold effective; simp [List.filter, hp, ho, dget, hng]
+  rw [this]; simp [dlast]
 
 /-- UNKNOWN NAMES never become settings: a successful `InsightsConfig(**kw).load_all()` holds no name outside
 the option table, whatever the four sources contain -/
@@ -161,13 +193,11 @@ theorem unknown_dropped (inp : Input) (s : Dict) (h : loadAll inp = .ok s) (k : 
     simp only [] at hp
     split at hp
     · cases hp
-    · split at hp
-      · cases hp
-      · injection hp with hp
-        rw [← hp]
-        refine known_updateDict _ _ (known_updateDict _ _ (known_updateDict _ _ ?_))
-        unfold afterConfOnly
-        split <;> exact known_updateDict _ _ k0
+    · injection hp with hp
+      rw [← hp]
+      refine known_updateDict _ _ (known_updateDict _ _ (known_updateDict _ _ ?_))
+      unfold afterConfOnly
+      split <;> exact known_updateDict _ _ k0
   obtain ⟨e, _, _⟩ := finish_ok _ _ _ hf
   rw [e]
   exact known_fromCfg _ _ k1 k hk
@@ -199,24 +229,21 @@ theorem loaded_value (c : Cfg) (s' : Dict) (a : Attr) (v : PyVal) (ha : attrOfNa
 theorem attrOfName_name (a : Attr) (h : a ≠ Attr.raised_) : attrOfName a.name = some a := by
   cases a <;> first | rfl | exact absurd rfl h
 
-/-! ## the recorded finding: the legacy section -/
+/-! ## the legacy section (repaired by /repo 8686086; regression witness corpus/C16/legacy-section-typed-option.json) -/
 
-/-- full statement: a file with only the legacy section contributes its (valid) items like the current section -/
+/-- full statement: a file with only the legacy section [redhat-access-insights] contributes its items exactly like
+the current section [insights-client] — typed options included, invalid values dropping the file alike -/
 def LegacySectionLoads : Prop :=
-  ∀ items d, coerceAll items = some d → fileDict (.legacy items) = fileDict (.section items)
+  ∀ items, fileDict (.legacy items) = fileDict (.section items)
 
-/-- what does hold: a legacy section WITHOUT typed options is loaded (as strings) -/
-theorem legacy_section_partial (items : List (Str × Str)) (h : items.any (fun kv => fileTyped kv.1) = false) :
-    fileDict (.legacy items) = .dict (dofPairs (items.map (fun kv => (kv.1, .str kv.2)))) := by
-  simp [fileDict, h]
+theorem legacy_section_loads : LegacySectionLoads := fun _ => rfl
 
-/-- witness (replayed against the implementation on every run): `[redhat-access-insights] auto_update=False`
-raises NoSectionError -/
-theorem legacy_section_witness : ¬ LegacySectionLoads := by
-  intro h
-  have := h [(['a','u','t','o','_','u','p','d','a','t','e'], ['F','a','l','s','e'])]
-    [(['a','u','t','o','_','u','p','d','a','t','e'], .bool false)] (by decide)
-  revert this
-  decide
+/-- … and what that is: every item coerced by its option's type, later duplicates winning -/
+theorem legacy_section_value (items : List (Str × Str)) (d : Dict) (h : coerceAll items = some d) :
+    fileDict (.legacy items) = dofPairs d := by
+  simp [fileDict, FileSrc.items?, h]
+
+example : fileDict (.legacy [(['a','u','t','o','_','u','p','d','a','t','e'], ['F','a','l','s','e'])]) =
+    [(['a','u','t','o','_','u','p','d','a','t','e'], .bool false)] := by decide
 
 end IV.ClientLoad
